@@ -498,6 +498,12 @@ def dupX : Mat := [[0, 0, 1], [1, 1, 3], [2, 2, 2]]
 example : isLstsq (center (sens [0, 1] dupX) (fitMean [0, 1] dupX)) (nonSens [0, 1] 3 dupX) [[1/2], [0]] 2 1 = true
     ∧ isLstsq (center (sens [0, 1] dupX) (fitMean [0, 1] dupX)) (nonSens [0, 1] 3 dupX) [[1/4], [1/4]] 2 1 = true := by
   decide +kernel
+/-- ... and the duplicated columns are NOT independent: d = (1, -1) is in the kernel of the centred block, so by
+    `normal_equations_unique_iff` the coefficients cannot be unique (the two solutions above) -/
+example : ∀ i, i < 3 → lin (ent (center (sens [0, 1] dupX) (fitMean [0, 1] dupX))) 2 (fun q => if q = 0 then 1 else -1) i = 0 := by
+  intro i hi
+  have : i = 0 ∨ i = 1 ∨ i = 2 := by omega
+  rcases this with rfl | rfl | rfl <;> (simp [lin, Finset.sum_range_succ]; decide +kernel)
 /-- ids given in non-increasing order: the kept columns still come out in their original order -/
 example : nonSensIdx [3, 0] 5 = [1, 2, 4] := by decide +kernel
 /-- the two different solutions for the duplicated columns give the same output (instance of `output_independent_of_solution`) -/
